@@ -573,7 +573,7 @@ var clauseKeywords = map[string]bool{
 	"property": true, "trusted": true, "pure": true, "effect": true, "inline": true,
 	"requires": true, "ensures": true, "modifies": true,
 	"loop": true, "invariant": true, "decreases": true, "unordered": true,
-	"spec": true, "axiom": true, "lemma": true, "sort": true, "witness": true, "uses": true, "induction": true, "ghost": true, "deterministic": true, "global": true, "global_assumed": true,
+	"spec": true, "axiom": true, "lemma": true, "sort": true, "witness": true, "uses": true, "induction": true, "ghost": true, "deterministic": true, "reports_all": true, "global": true, "global_assumed": true,
 }
 
 type logical struct {
@@ -635,6 +635,11 @@ func ParseLines(pkg, path string, lines []Line) (*File, error) {
 			} else {
 				return nil, fmt.Errorf("%s: property outside func/lemma", l.pos)
 			}
+		case "reports_all":
+			if cur == nil {
+				return nil, fmt.Errorf("%s: reports_all outside func", l.pos)
+			}
+			cur.ReportsAll = true
 		case "deterministic":
 			if cur == nil {
 				return nil, fmt.Errorf("%s: deterministic outside func", l.pos)
